@@ -15,6 +15,15 @@ MergeSeq / MergeSlice monoids and Reduce over them, Iterator.ToSeq, Option.ToSeq
                    call: it shares storage with NO existing value;
 * `alias_is_window` — an aliasing result is nil or a window of the receiver (inside its length);
 * `mergeSeqBad_writes` — the discipline is not vacuous: `Combine` written as `append(a, b...)` does write.
+
+WHICH constructors of `Op` the above is a statement about (audit finding 5; last section of this file):
+`frame_step` / `persistent` / `arrays_persistent` quantify over every `Op`, but they say something only where
+`Model/SliceHeap.lean` has a program (`frame_step_nontrivial`, 22 constructors always, 4 more when their argument
+is non-empty) or a window result (8 constructors: Go's `s[a:b]`, which indeed neither allocates nor writes).
+For `fold`, `groupBy`, `toGoMap` (`unmodelled_tags`, decided) the model has NEITHER a program NOR a result
+(`exec_unmodelled`: `exec h s op = ([], h)`), so for them the theorems reduce to `h[a]? = h[a]?` and claim
+nothing about `seq.Fold*`, `seq.GroupBy`, `seq.ToGoMap`; those are covered by the harness only
+(`C04Frame.named_functions_covered`).
 -/
 namespace FpVerif.Spec.C04
 open FpVerif FpVerif.SliceHeap
@@ -271,5 +280,130 @@ example : WF { heap := [[1, 2, 3, 4, 5]],
   intro x hx a ha
   simp at hx
   rcases hx with rfl | rfl <;> simp at ha <;> subst ha <;> decide
+
+-- which constructors have a real program (audit finding 5) ------------------------------------------------------
+
+/-- `Op` carries functions, so it has no decidable equality: `OpTag` names its 37 constructors. -/
+inductive OpTag where
+  | widen | init | tail | take | drop | unSeq | filter | filterNot | map | flatMap | add | append | concat
+  | reverse | sort | distinct | scan | span | partition | fold | groupBy | toGoMap | collect | mapPkg
+  | flatMapPkg | flatten | ap | map2 | filterMap | concatPkg | ofPkg | pure | mergeCombine | mergeEmpty
+  | reduceMerge | iterToSeq | optToSeq
+  deriving DecidableEq, Repr
+
+def opTag : Op → OpTag
+  | .widen => .widen | .init => .init | .tail => .tail | .take _ => .take | .drop _ => .drop | .unSeq => .unSeq
+  | .filter _ => .filter | .filterNot _ => .filterNot | .map _ => .map | .flatMap _ => .flatMap
+  | .add _ => .add | .append _ => .append | .concat _ => .concat | .reverse => .reverse
+  | .sort _ => .sort | .distinct => .distinct | .scan _ _ => .scan | .span _ => .span | .partition _ => .partition
+  | .fold => .fold | .groupBy => .groupBy | .toGoMap => .toGoMap | .collect => .collect | .mapPkg _ => .mapPkg
+  | .flatMapPkg _ => .flatMapPkg | .flatten _ => .flatten | .ap _ => .ap | .map2 _ _ => .map2
+  | .filterMap _ => .filterMap | .concatPkg _ => .concatPkg | .ofPkg => .ofPkg | .pure _ => .pure
+  | .mergeCombine _ => .mergeCombine | .mergeEmpty => .mergeEmpty | .reduceMerge _ => .reduceMerge
+  | .iterToSeq => .iterToSeq | .optToSeq _ => .optToSeq
+
+/-- how `Model/SliceHeap.lean` treats a constructor -/
+inductive Modelling where
+  /-- `prog` is a program over `make` / `append` / `s[i] = x`, the result is a register of it -/
+  | program
+  /-- no program: the result is nil or a window `s[a:b]` of the receiver (no allocation, no write in Go either) -/
+  | window
+  /-- a program when the argument is non-empty, otherwise the receiver itself / nil -/
+  | programOrWindow
+  /-- NO program and NO result: the theorems of this file say nothing about the Go function -/
+  | unmodelled
+  deriving DecidableEq, Repr
+
+def OpTag.modelling : OpTag → Modelling
+  | .widen | .init | .tail | .take | .drop | .unSeq | .ofPkg | .mergeEmpty => .window
+  | .append | .concat | .mergeCombine | .optToSeq => .programOrWindow
+  | .fold | .groupBy | .toGoMap => .unmodelled
+  | _ => .program
+
+def allTags : List OpTag :=
+  [.widen, .init, .tail, .take, .drop, .unSeq, .filter, .filterNot, .map, .flatMap, .add, .append, .concat,
+   .reverse, .sort, .distinct, .scan, .span, .partition, .fold, .groupBy, .toGoMap, .collect, .mapPkg,
+   .flatMapPkg, .flatten, .ap, .map2, .filterMap, .concatPkg, .ofPkg, .pure, .mergeCombine, .mergeEmpty,
+   .reduceMerge, .iterToSeq, .optToSeq]
+
+theorem allTags_complete (t : OpTag) : t ∈ allTags := by cases t <;> decide
+
+/-- **The constructors WITHOUT a program or result** (decided over the complete list): the three the
+    header must not claim. -/
+theorem unmodelled_tags :
+    allTags.filter (fun t => t.modelling == .unmodelled) = [.fold, .groupBy, .toGoMap] := by decide
+
+/-- the constructors with a program for every receiver and argument -/
+theorem program_tags :
+    allTags.filter (fun t => t.modelling == .program) =
+      [.filter, .filterNot, .map, .flatMap, .add, .reverse, .sort, .distinct, .scan, .span, .partition, .collect,
+       .mapPkg, .flatMapPkg, .flatten, .ap, .map2, .filterMap, .concatPkg, .pure, .reduceMerge, .iterToSeq] := by
+  decide
+
+/-- `unmodelled` is exactly "no program and no result", and then a call is the identity on the heap and
+    returns nothing: `frame_step` is `h[a]? = h[a]?` there. -/
+theorem exec_unmodelled (op : Op) (hu : (opTag op).modelling = .unmodelled) (h : Heap) (s : Slice) :
+    prog s op = none ∧ resOf s op = Res.none ∧ exec h s op = ([], h) := by
+  cases op <;> first | (cases hu; done) | exact ⟨rfl, rfl, rfl⟩
+
+/-- conversely every other constructor has a result for every receiver -/
+theorem modelled_has_result (op : Op) (hu : (opTag op).modelling ≠ .unmodelled) (s : Slice) :
+    resOf s op ≠ Res.none := by
+  cases op <;> first
+    | (exact absurd rfl hu)
+    | (intro hr; simp only [resOf] at hr; (try split at hr) <;> cases hr)
+
+/-- a `program` constructor has a program for every receiver, and its result is never an alias -/
+theorem program_has_prog (op : Op) (hp : (opTag op).modelling = .program) (s : Slice) :
+    (∃ p, prog s op = some p) ∧ ∀ t, resOf s op ≠ .alias t := by
+  cases op <;> first
+    | (cases hp; done)
+    | (refine ⟨?_, fun t hr => by simp only [resOf] at hr; cases hr⟩
+       simp only [prog]
+       first | exact ⟨_, rfl⟩ | (split <;> exact ⟨_, rfl⟩))
+
+/-- a `window` constructor has no program and returns nil or a window of the receiver -/
+theorem window_no_prog (op : Op) (hw : (opTag op).modelling = .window) (h : Heap) (s : Slice) :
+    prog s op = none ∧ (∃ t, resOf s op = .alias t) ∧ (exec h s op).2 = h := by
+  cases op <;> first
+    | (cases hw; done)
+    | (refine ⟨rfl, ?_, ?_⟩
+       · simp only [resOf]; first | exact ⟨_, rfl⟩ | (split <;> exact ⟨_, rfl⟩)
+       · rw [exec_heap]; rfl)
+
+/-- a `programOrWindow` constructor: a program with a fresh result, or (empty argument) the receiver / nil -/
+theorem programOrWindow_cases (op : Op) (hw : (opTag op).modelling = .programOrWindow) (s : Slice) :
+    ((∃ p, prog s op = some p) ∧ resOf s op = .regA) ∨ (prog s op = none ∧ ∃ t, resOf s op = .alias t) := by
+  cases op <;> first
+    | (cases hw; done)
+    | (simp only [prog, resOf]; split
+       · left; exact ⟨⟨_, rfl⟩, rfl⟩
+       · right; exact ⟨rfl, _, rfl⟩)
+    | (rename_i o; cases o
+       · right; exact ⟨rfl, _, rfl⟩
+       · left; exact ⟨⟨_, rfl⟩, rfl⟩)
+
+/-- **Frame, restricted to the operations that HAVE a program**: the heap after the call is the heap the
+    program `p` (a sequence of `make` / `append` / `s[i] = x` / `copy` statements, `append` writing in place when
+    the capacity suffices) leaves behind, `p` obeys the ownership discipline, and that heap agrees with the old
+    one on every array that existed before — a statement about what `p` did, not `h[a]? = h[a]?`. -/
+theorem frame_step_nontrivial (h : Heap) (s : Slice) (op : Op) (p : Step) (hp : prog s op = some p) :
+    (exec h s op).2 = (p { heap := h, a := Slice.nil, b := Slice.nil }).heap ∧ Safe p ∧
+    (∀ a, a < h.length → (p { heap := h, a := Slice.nil, b := Slice.nil }).heap[a]? = h[a]?) ∧
+    (opTag op).modelling ≠ .unmodelled := by
+  have hfin : finalSt h s op = p { heap := h, a := Slice.nil, b := Slice.nil } := by
+    unfold finalSt; rw [hp]
+  refine ⟨by rw [exec_heap, hfin], prog_safe s op p hp, fun a ha => ?_, fun hu => ?_⟩
+  · rw [← hfin, ← exec_heap]; exact frame_step h s op a ha
+  · rw [(exec_unmodelled op hu h s).1] at hp; cases hp
+
+/-- the programs really allocate and write: `Reverse` of a window with spare capacity inside a shared array
+    leaves that array alone and returns the reversed elements in a NEW array (index 1) -/
+example :
+    let h : Heap := [[1, 2, 3, 4, 5]]
+    let s : Slice := { arr := some 0, off := 1, len := 3, cap := 4 }
+    (exec h s .reverse).2 = [[1, 2, 3, 4, 5], [4, 3, 2]] ∧
+    (exec h s .reverse).1 = [{ arr := some 1, off := 0, len := 3, cap := 3 }] := by decide
+
 
 end FpVerif.Spec.C04
